@@ -329,7 +329,7 @@ Proof.
     bdestr; try lia; reflexivity.
 Qed.
 
-Lemma Inv_init n (A b : mat R) (b0 : vec R) : Inv n A b0 0 A b0.
+Lemma Inv_init n (A : mat R) (b0 : vec R) : Inv n A b0 0 A b0.
 Proof.
   split.
   - intros x H i Hi. rewrite <- (H i Hi). apply Rsum_n_ext. intros j Hj.
@@ -393,7 +393,7 @@ Proof.
     - intros i st Hi HP Hfl.
       destruct (fflag st) eqn:E.
       + rewrite (fe_step_flagged n tol i st E) in Hfl. congruence.
-      + apply fe_step_inv; try assumption; try lia. apply HP. reflexivity. }
+      + apply fe_step_inv; try assumption; try lia. apply HP. exact E. }
   exact HP.
 Qed.
 
@@ -418,7 +418,7 @@ Lemma forward_elimination_unflagged n tol (A : mat R) (b s : vec R) :
   fflag (forward_elimination n tol A b s) = false ->
   let st := for_range 0 (n - 1) (fe_step n tol) (mkf A b s false) in
   forward_elimination n tol A b s = st /\ fflag st = false /\
-  nltb (nabs (ndiv (fa st (n - 1) (n - 1)) (fs st (n - 1)))) tol = false.
+  nltb (nabs (ndiv (fa st (n - 1)%nat (n - 1)%nat) (fs st (n - 1)%nat))) tol = false.
 Proof.
   unfold forward_elimination. cbv zeta.
   destruct (fflag (for_range 0 (n - 1) (fe_step n tol) (mkf A b s false))) eqn:E.
